@@ -134,6 +134,45 @@ def occupied_variant(tree, search, replace, r, k):
     return tree + [occ]
 
 
+def temp_name_bystanders(R, g, fails, stats):
+    """undo writes each restored file through <stem>.<pid>.renamify.tmp beside it. An entry that already carries that name for the undo
+    process's pid (a leftover of a crashed run, the user's own file, a symlink) is not in the plan: whatever undo does, it must survive,
+    and so must whatever a symlink of that name points at. The pid is known in advance: bash writes the entry, then execs renamify."""
+    for j in range(3 if R.tier == "quick" else 24):
+        a, b = g.term_pair()
+        s, t = gen.render(a, "Snake"), gen.render(b, "Snake")
+        tree = [{"p": "d", "k": "d", "m": 0o755}, {"p": "d/notes.txt", "k": "f", "c": (f"see {s} here\n").encode(), "m": 0o640},
+                {"p": "d/y.txt", "k": "f", "c": b"bystander y\n", "m": 0o600}, {"p": f"{s}_file.txt", "k": "f", "c": b"plain\n", "m": 0o644}]
+        kind = j % 3
+        make = ['printf "PRECIOUS USER DATA\\n" > "d/notes.$$.renamify.tmp"', 'ln -s y.txt "d/notes.$$.renamify.tmp"',
+                'ln -s nowhere "d/notes.$$.renamify.tmp"'][kind]
+        with cli.Sandbox(tree) as sb:
+            rc, o, e = sb.run(["--no-auto-init", "-y", "rename", s, t])
+            if rc != 0:
+                continue
+            before = sb.snapshot()
+            script = make + '; echo $$ > ../pid_of_undo; exec "$0" "$@"'
+            rcu, ou, eu = sb.run(["-c", script, cli.cli_bin(), "--no-auto-init", "-y", "undo", "latest"], bin="/bin/bash")
+            try:
+                pid = int((sb.root.parent / "pid_of_undo").read_text())
+            except Exception:
+                continue
+            after = sb.snapshot()
+            stats["undo_temp_name_bystander_runs"] = stats.get("undo_temp_name_bystander_runs", 0) + 1
+            R.case(("undo_temp_name", s, kind), nontrivial=True)
+            occ = f"d/notes.{pid}.renamify.tmp"
+            want_occ = [("f", None), ("l", "y.txt"), ("l", "nowhere")][kind]
+            got = after.get(occ)
+            ok_occ = got is not None and got[0] == want_occ[0] and (want_occ[1] is None or got[1] == want_occ[1])
+            if kind == 0 and ok_occ:
+                ok_occ = (sb.root / occ).read_bytes() == b"PRECIOUS USER DATA\n"
+            if not ok_occ or after.get("d/y.txt") != before.get("d/y.txt"):
+                fails.append({"why": f"undo (exit {rcu}) destroyed an entry that is not in the plan: it carried the name undo uses for its temporary file "
+                                     f"({['a user file', 'a symlink to the bystander d/y.txt', 'a dangling symlink'][kind]})", "tree": cli.tree_json(tree),
+                              "search": s, "replace": t, "occupant_now": repr(got)[:120], "y_before": repr(before.get("d/y.txt")),
+                              "y_now": repr(after.get("d/y.txt")), "stderr": eu.decode("utf-8", "replace")[-300:]})
+
+
 def run(R):
     R.trusted += ["Coq 8.16.1 kernel", "harness (patch_headers, diffy ops)", "extraction + modelrun.ml"]
     proved = R.prove()
@@ -148,6 +187,7 @@ def run(R):
             if t2 is not None:
                 stats["occupied_destination_variants"] = stats.get("occupied_destination_variants", 0) + 1
                 one(R, t2, search, replace, CMDS[i % 3], fails, stats)
+    temp_name_bystanders(R, g, fails, stats)
     R.coverage["input_distribution"] = stats
     dis = tie(R, g)
     R.disagreements = len(dis)
